@@ -17,6 +17,20 @@ rc, out = sh("git -C /repo worktree add --detach %s HEAD" % wt, "/")
 res = {}
 try:
     root = os.path.join(wt, sub)
+    if "{MODFILE}" in cmd:
+        # separate module (tools/goctl) that only builds offline with an alternate modfile
+        import re
+        aux = wt + ".aux"; os.makedirs(aux, exist_ok=True)
+        mod = open(os.path.join(root, "go.mod")).read()
+        mod = re.sub(r"(?m)^replace\s+github\.com/zeromicro/go-zero\s.*$", "", mod)
+        S = "/verif/harness/goctl/standins"
+        mod += "\nreplace github.com/zeromicro/go-zero => %s\nreplace github.com/gookit/color => %s/color\nreplace github.com/fatih/structtag => %s/structtag\n" % (wt, S, S)
+        open(aux + "/alt.mod", "w").write(mod)
+        open(aux + "/alt.sum", "w").write(open(os.path.join(root, "go.sum")).read())
+        cmd = cmd.replace("{MODFILE}", aux + "/alt.mod")
+        MODFLAG = "-modfile=%s/alt.mod " % aux
+    else:
+        MODFLAG = ""
     demo_dst = os.path.join(root, pkg[2:], "zz_demo_seed_test.go")
     shutil.copy(os.path.join(d, "demo_test.go"), demo_dst)
     rc, out = sh(cmd, root); res["demo_without_patch_passes"] = (rc == 0)
@@ -24,15 +38,15 @@ try:
     os.unlink(demo_dst)
     rc, out = sh("git apply %s" % os.path.join(d, "patch.diff"), wt); res["patch_applies"] = (rc == 0)
     if rc != 0: print(out)
-    rc, out = sh("go build ./...", root); res["builds"] = (rc == 0)
+    rc, out = sh("go build %s./..." % MODFLAG if not MODFLAG else "go build %s./pkg/parser/api/..." % MODFLAG, root); res["builds"] = (rc == 0)
     pk = meta.get("packages_tested") or [pkg + "/..."]
-    rc, out = sh("go test -count=1 %s" % " ".join(pk), root); res["existing_tests_pass"] = (rc == 0)
+    rc, out = sh("go test %s-count=1 %s" % (MODFLAG, " ".join(pk)), root); res["existing_tests_pass"] = (rc == 0)
     if rc != 0: print(out[-3000:])
     shutil.copy(os.path.join(d, "demo_test.go"), demo_dst)
     rc, out = sh(cmd, root); res["demo_with_patch_fails"] = (rc != 0)
     res["demo_fail_excerpt"] = "\n".join([l for l in out.splitlines() if "FAIL" in l or "Error" in l or "panic" in l][:6])
 finally:
-    sh("git -C /repo worktree remove --force %s" % wt, "/"); shutil.rmtree(wt, ignore_errors=True)
+    sh("git -C /repo worktree remove --force %s" % wt, "/"); shutil.rmtree(wt, ignore_errors=True); shutil.rmtree(wt + ".aux", ignore_errors=True)
 print(json.dumps(res, indent=1))
 ok = all(res.get(k) for k in ["demo_without_patch_passes", "patch_applies", "builds", "existing_tests_pass", "demo_with_patch_fails"])
 sys.exit(0 if ok else 1)
